@@ -90,6 +90,7 @@ class Spy:
             for n, v in bound.items():
                 nnx_objects(n, v, objs)
             for n, m in self.run_mods.items():
+                m = tr.resolve(m)
                 if m is not None:
                     objs["run:" + n] = m
             before = take(objs)
@@ -249,18 +250,33 @@ def main(chk):
                     chk.fail(f"C05:{key}:{n.replace('run:', '')}", f"{key} changed a parameter outside the component it trains and its optimizer state",
                              {"routine": key, "called_from": c["context"], "object": n, "path": describe(c, n, j),
                               "documented": {"trained": [list(map(str, t)) for t in SPEC[key]["trained"]], "optimizer": SPEC[key]["opt"]}})
+        # distinct components must not share storage: among the arguments, and among the modules / optimizers of the run
+        idsets = {n: {i for _, i in c["objs"][n]} for n in names}
+        groups = [[n for n in names if not n.startswith("run:")], [n for n in names if n.startswith("run:")]]
+        py_share = []
+        for gi, grp in enumerate(groups):
+            for ai, a in enumerate(grp):
+                for bi in range(ai + 1, len(grp)):
+                    if idsets[a] & idsets[grp[bi]]:
+                        py_share.append([gi, ai, bi])
+                        chk.fail(f"C05:{key}:shared-storage", f"two distinct components passed to / living beside {key} share parameter storage, so training one changes the other",
+                                 {"routine": key, "called_from": c["context"], "objects": [a, grp[bi]], "iteration": c["iteration"]})
         sig = (key, tuple((n, tuple(ids[i] for _, i in c["objs"][n]), tuple(c["changed"][n])) for n in names), tuple(sorted(ids[i] for i in c["ws"])))
         if sig not in cache:
             cache[sig] = len(exprs)
             ws_l = llit(sorted(ids[i] for i in c["ws"]), nlit)
             objs_l = llit(names, lambda n: llit(list(enumerate(c["objs"][n])), lambda e: f"({nlit(e[0])}, {nlit(ids[e[1][1]])})"))
             ch_l = llit(names, lambda n: llit(c["changed"][n], nlit))
-            exprs.append(f"(sl (sp sn sn) (M.frame_check {ws_l} {objs_l} {ch_l}))")
-        recs.append((cache[sig], py_viol, c))
+            obj_l = lambda n: llit(list(enumerate(c["objs"][n])), lambda e: f"({nlit(e[0])}, {nlit(ids[e[1][1]])})")   # noqa: E731
+            exprs.append(f"(sp (sl (sp sn sn)) (sl (sl (sp sn sn))) (M.frame_check {ws_l} {objs_l} {ch_l}, "
+                         f"[M.sharing {llit(groups[0], obj_l)}; M.sharing {llit(groups[1], obj_l)}]))")
+        recs.append((cache[sig], py_viol, py_share, c))
     res = chk.model_eval(exprs, per_file=40)
-    for k, py_viol, c in recs:
-        if sorted(map(list, res[k])) != sorted(py_viol):
-            chk.disagree("frame_check", {"routine": c["routine"], "called_from": c["context"], "harness": py_viol, "model": res[k]})
+    for k, py_viol, py_share, c in recs:
+        if sorted(map(list, res[k][0])) != sorted(py_viol):
+            chk.disagree("frame_check", {"routine": c["routine"], "called_from": c["context"], "harness": py_viol, "model": res[k][0]})
+        if sorted([gi, a, b] for gi, g in enumerate(res[k][1]) for a, b in g) != sorted(py_share):
+            chk.disagree("sharing", {"routine": c["routine"], "called_from": c["context"], "harness": py_share, "model": res[k][1]})
     chk.count("distinct_frame_shapes", len(exprs))
 
     # ---- an update does change the trained component (aggregated over the calls of each routine)
